@@ -456,6 +456,69 @@ func checkC09(p *Prog, r *Report) {
 		}
 	}
 
+	// ---- R9.7 fan-out muxes forward to every underlying mux ------------------------------------------------------
+	r.Rule("R9.7", "A multi mux forwards RemoveConnByUfrag and Close to every underlying mux: the loop over its muxes has no exit other than exhaustion and calls the method on each element, so no underlying mux keeps the generation's connection registered (or stays open).", 4)
+	for _, ty := range []string{"MultiUDPMuxDefault", "MultiTCPMuxDefault"} {
+		for _, m := range []string{"RemoveConnByUfrag", "Close"} {
+			f := p.Fn(ty + "." + m)
+			if !r.Anchor(ty+"."+m, f != nil) {
+				continue
+			}
+			ok, why := false, "no loop over the underlying muxes"
+			walkBody(f, func(n ast.Node) bool {
+				rs, isR := n.(*ast.RangeStmt)
+				if !isR || !p.IsField(rs.X, ty+".muxes") || rs.Value == nil {
+					return true
+				}
+				ev, isID := rs.Value.(*ast.Ident)
+				if !isID {
+					return true
+				}
+				g := p.CFG(f)
+				var ra ast.Node
+				for _, b := range g.Blocks {
+					for _, nd := range b.Nodes {
+						if x, ok := nd.(*RangeAssign); ok && x.Stmt == rs {
+							ra = x
+						}
+					}
+				}
+				if ra == nil {
+					return true
+				}
+				loc, _ := g.Locate(ra)
+				head := loc.B.Preds[0].From
+				isFwd := func(nd ast.Node) bool {
+					return p.nodeHasCall(nd, func(c *ast.CallExpr) bool {
+						sel, ok := unparen(c.Fun).(*ast.SelectorExpr)
+						return ok && sel.Sel.Name == m && p.isObj(sel.X, p.ObjOf(ev))
+					})
+				}
+				// every path through the body reaches the loop head again, having forwarded
+				_, skips := g.PathAvoiding(Loc{loc.B, loc.I + 1}, isFwd, func(b *Block) bool { return b == head || b == g.Exit }, nil)
+				// and the body never leaves the loop early
+				early := false
+				ast.Inspect(rs.Body, func(x ast.Node) bool {
+					switch y := x.(type) {
+					case *ast.ReturnStmt:
+						early = true
+					case *ast.BranchStmt:
+						if y.Tok.String() == "break" || y.Tok.String() == "goto" {
+							early = true
+						}
+					case *ast.FuncLit:
+						return false
+					}
+					return true
+				})
+				ok = !skips && !early
+				why = fmt.Sprintf("an element can be skipped=%v, the loop can be left early=%v", skips, early)
+				return true
+			})
+			r.Check(ok, ty+"."+m+" reaches every underlying mux", p.Pos(f.Body.Pos()), "for each mux: mux."+m+"(...)", why+": an underlying mux keeps the ufrag's connection (or stays open)")
+		}
+	}
+
 	// assumptions must be in use
 	r.curRule = "R9.1"
 	var keys []string
